@@ -179,11 +179,13 @@ CHECKS = {
     "C18": {
         "technique": "operator-table extraction from the dunder bodies of Fraction and FractionValue; sibling cross-check of FractionScalar against "
                      "Scalar (normalised statement comparison, shared orientation/validation rules); conversion-intent analysis of the "
-                     "parts of a FractionValue against the affine rows of the interpreted table",
+                     "parts of a FractionValue against the affine rows of the interpreted table; "
+                     "belief-contradiction rule over the digit-cutting helpers of CreateFromFloat (text-of-number def-use closure per function)",
         "level": "Every arithmetic and order dunder of Fraction / FractionValue applies the matching operation on the denoted amount; "
                  "FractionScalar orders, validates and converts like Scalar; the number and the numerator are converted by two separate unit "
                  "conversions while 7 table units have an offset - a refutation for those units, recorded as a finding. The sign "
-                 "CreateFromFloat gives the fraction part is the sign of the value itself (not of its truncated integer part); the digits "
+                 "CreateFromFloat gives the fraction part is the sign of the value itself (not of its truncated integer part); every helper of "
+                 "CreateFromFloat that cuts digits out of str(float) at the '.' also handles exponent notation (one helper did not: repaired, 4f1625f); the digits "
                  "CreateFromFloat finds, the format/parse round trip and float exactness are not decided (they quantify over digit strings).",
         "note": NOTE,
     },
